@@ -17,6 +17,7 @@ import (
 
 	"github.com/gobuffalo/pop/v6"
 	"github.com/gofrs/uuid"
+	"github.com/ory/x/configx"
 	"github.com/ory/x/logrusx"
 	"github.com/ory/x/otelx"
 
@@ -48,7 +49,22 @@ func nsIndexOf(s string) int {
 	return verifIte(s[0] == 'N', 0, verifIte(s[0] == 'M', 1, -1))
 }
 
+// dbRelEmpty is the index of the empty relation (subject sets "ns:obj#" only).
+const dbRelEmpty = 2
+
+// dbSetRelName: the relation of a subject set may also be empty; whether it is
+// gets concretised (the two names have different lengths).
+func dbSetRelName(i int) string {
+	if verifConcretizeBool(verifEq(i, dbRelEmpty)) {
+		return ""
+	}
+	return dbRelName(i)
+}
+
 func relIndexOf(s string) int {
+	if len(s) == 0 {
+		return dbRelEmpty
+	}
 	if len(s) != 1 {
 		return -1
 	}
@@ -135,7 +151,7 @@ func dbSymRows(k int) []dbRow {
 			sid:     verifIntRange(0, dbObjs-1),
 			sns:     verifIntRange(0, len(dbNS)-1),
 			sobj:    verifIntRange(0, dbObjs-1),
-			srel:    verifIntRange(0, len(dbRels)-1),
+			srel:    verifIntRange(0, len(dbRels)-1+verifParamOr("emptyRel", 0)),
 		}
 	}
 	return rows
@@ -168,7 +184,7 @@ func (s *dbState) materialise(i int) *RelationTuple {
 	if r.isSet {
 		rt.SubjectSetNamespace = dbsql.NullString{String: dbNSName(r.sns), Valid: true}
 		rt.SubjectSetObject = uuid.NullUUID{UUID: dbObjSym(r.sobj), Valid: true}
-		rt.SubjectSetRelation = dbsql.NullString{String: dbRelName(r.srel), Valid: true}
+		rt.SubjectSetRelation = dbsql.NullString{String: dbSetRelName(r.srel), Valid: true}
 	} else {
 		rt.SubjectID = uuid.NullUUID{UUID: dbObjSym(r.sid), Valid: true}
 	}
@@ -985,12 +1001,39 @@ type dbDeps struct {
 
 func (d *dbDeps) Logger() *logrusx.Logger                        { return d.log }
 func (d *dbDeps) Tracer(context.Context) *otelx.Tracer           { return d.tr }
-func (d *dbDeps) Contextualizer() ketoctx.Contextualizer         { return &ketoctx.DefaultContextualizer{} }
+func (d *dbDeps) Contextualizer() ketoctx.Contextualizer         { return &dbCtxer{} }
 func (d *dbDeps) Config(context.Context) *config.Config          { return d.cfg }
 func (d *dbDeps) PopConnection(context.Context) (*pop.Connection, error) { return dbBase, nil }
 
+// dbCtxer: a contextualizer that takes the network from the request context
+// when the context names one (multi-tenant deployments), else the fallback.
+type dbCtxer struct{}
+type dbNetKey struct{}
+
+func (*dbCtxer) Network(ctx context.Context, fallback uuid.UUID) uuid.UUID {
+	if n, ok := ctx.Value(dbNetKey{}).(uuid.UUID); ok {
+		return n
+	}
+	return fallback
+}
+
+func (*dbCtxer) Config(_ context.Context, c *configx.Provider) *configx.Provider { return c }
+
+// dbCtx is the request context of the harnesses. With the parameter ctxNet = 1
+// the persister is created for the *other* network and the caller's network
+// (0) comes from the context, so every specification stays as it is.
+func dbCtx() context.Context {
+	if verifParamOr("ctxNet", 0) == 1 {
+		return context.WithValue(context.Background(), dbNetKey{}, dbNID(0))
+	}
+	return context.Background()
+}
+
 // newModelPersister: a real Persister for network nid over the model database.
 func newModelPersister(nid int) *Persister {
+	if verifParamOr("ctxNet", 0) == 1 {
+		nid = 1 - nid
+	}
 	if dbBase == nil {
 		dbBase = &pop.Connection{}
 	}
